@@ -143,21 +143,37 @@ Theorem C01_repaired_on_the_witnesses :
 Proof. exact repaired_on_witnesses. Qed.
 Print Assumptions C01_repaired_on_the_witnesses.
 
+(* ---- complex_simplex_range (children first, then the node): every stored simplex exactly once, with its value ---- *)
+Theorem C01_enumeration_is_keys : forall l, wf l ->
+  NoDup (map fst (enum_t (Node l))) /\
+  forall t v, In (t, v) (enum_t (Node l)) <-> (t <> [] /\ find_val t l = Some v).
+Proof. exact enumeration_is_keys. Qed.
+Print Assumptions C01_enumeration_is_keys.
+
+(* ---- exact dimension, for ALL refined histories (repaired bookkeeping): dimension() returns the dimension of the
+        abstract complex (-1 when it is empty), and the cached dimension_ is already exact whenever
+        dimension_to_be_lowered_ is false.  The same statement for fx = false is refuted above (F2). ---- *)
+Theorem C01_dimension_exact : forall ops,
+  forallb refined_op ops = true -> ok_history ops = true ->
+  snd (dimension (run true ops)) = cdim (spec_run ops) /\
+  (dirty (run true ops) = false -> dim_ub (run true ops) = cdim (spec_run ops)).
+Proof. exact dimension_exact. Qed.
+Print Assumptions C01_dimension_exact.
+
+(* recomputation: lower_upper_bound_dimension attains the height of the tree *)
+Theorem C01_height_is_attained : forall l, wf l -> l <> [] ->
+  exists t, t <> [] /\ find_val t l <> None /\ sdim t = height_t (Node l).
+Proof. exact height_witness. Qed.
+Print Assumptions C01_height_is_attained.
+
 (* ---- stated, not proved in Coq (compared per input by the correspondence run instead) ---- *)
-(* the exact cached dimension: whenever no recomputation is pending, dimension_ is the dimension of the complex *)
-Definition C01_dimension_exact_full : Prop :=
-  forall ops, ok_history ops = true ->
-    let st := run true ops in
-    snd (dimension st) = cdim (spec_run ops) /\ (dirty st = false -> dim_ub st = cdim (spec_run ops)).
-(* insert_graph, expansion and num_simplices_by_dimension inside histories *)
+(* histories that also contain insert_graph, expansion and num_simplices_by_dimension *)
 Definition C01_history_refines_full : Prop :=
   forall ops, ok_history ops = true ->
-    forall t, t <> [] -> find_val t (tree (run true ops)) = lookup (spec_run ops) t.
-(* enumeration in iterator order = the keys, each once *)
-Definition C01_enumeration_full : Prop :=
-  forall l, wf l -> NoDup (map fst (enum_t (Node l))) /\
-                    forall t v, In (t, v) (enum_t (Node l)) <-> (t <> [] /\ find_val t l = Some v).
-(* both coface searches return exactly the cofaces of the requested codimension *)
+    (forall t, t <> [] -> find_val t (tree (run true ops)) = lookup (spec_run ops) t) /\
+    snd (dimension (run true ops)) = cdim (spec_run ops).
+(* both coface searches return exactly the cofaces of the requested codimension (missing: rec_coface walk and
+   label-list search against the set definition) *)
 Definition C01_cofaces_full : Prop :=
   forall st s c, wf (tree st) -> ub_valid st -> find_val s (tree st) <> None -> 0 <= c ->
     forall t, (In t (cofaces_unlinked true st s c) <-> In t (cofaces_linked st s c)) /\
@@ -168,3 +184,9 @@ Definition C01_boundary_full : Prop :=
   forall l s, wf l -> (forall t, In t (faces s) -> find_val t l <> None) ->
     forall f o v, In (f, o, v) (boundary_t l s) -> v = find_val f l /\ v <> None /\ subseq f s = true /\
                                                    length f = pred (length s) /\ In o s /\ ~ In o f.
+(* skeleton_simplex_range(d) = the simplices of dimension <= d; num_simplices_by_dimension = counts per dimension *)
+Definition C01_skeleton_counts_full : Prop :=
+  forall l k, wf l ->
+    (forall t v, In (t, v) (skel_t (Node l) k) <-> (t <> [] /\ (length t <= S k)%nat /\ find_val t l = Some v)) /\
+    (forall st, tree st = l -> ub_valid st ->
+       exists r, snd (count_by_dim st) = Some r /\ forall d, (d < length r)%nat -> nth d r 0 = count_dim (abs l) (Z.of_nat d)).
